@@ -4,6 +4,47 @@ from ..runner import Job
 from ..contractfile import ContractFile
 from . import protocol
 
+from .. import replay as RP
+REPLAY = r'''
+/* G1 on the real library, for the family of the failed job: after every step of  load -> overwrite -> refine -> load -> refine -> merge -> overwrite
+ * the surrogate must return, at every loaded point, the value currently stored for it (a merge stores zeros for the merged points). */
+static std::string fam = "@FAM@";
+int main_replay(){
+  using namespace TasGrid;
+  int bad = 0;
+  for (int variant = 0; variant < 3; variant++) {
+    TasmanianSparseGrid g;
+    if (fam == "Global") g.makeGlobalGrid(2, 2, 2, type_level, variant == 0 ? rule_clenshawcurtis : variant == 1 ? rule_leja : rule_fejer2);
+    else if (fam == "Sequence") g.makeSequenceGrid(2, 2, 2, type_level, variant == 0 ? rule_leja : variant == 1 ? rule_rleja : rule_minlebesgue);
+    else if (fam == "LocalPolynomial") g.makeLocalPolynomialGrid(2, 2, 2, variant + 1, variant == 2 ? rule_semilocalp : rule_localp);
+    else g.makeWaveletGrid(2, 2, 1, variant == 2 ? 3 : 1);
+    auto check = [&](const char *what){
+      if (g.getNumLoaded() == 0) return;
+      std::vector<double> p = g.getLoadedPoints(); const double *v = g.getLoadedValues(); int miss = 0;
+      for (int i = 0; i < g.getNumLoaded(); i++) { double y[2]; g.evaluate(&p[2*i], y); if (!(std::abs(y[0] - v[2*i]) < 1.E-9 && std::abs(y[1] - v[2*i+1]) < 1.E-9)) miss++; }
+      if (miss) { std::printf("%s variant %d after %s: %d of %d loaded points do not return their stored value\n", fam.c_str(), variant, what, miss, g.getNumLoaded()); bad++; }
+    };
+    auto load = [&](double shift){ bool fresh = g.getNumNeeded() > 0; std::vector<double> p = fresh ? g.getNeededPoints() : g.getLoadedPoints(); int n = fresh ? g.getNumNeeded() : g.getNumLoaded();
+      std::vector<double> v(2 * n); for (int i = 0; i < n; i++) { v[2*i] = std::exp(p[2*i] - 0.4 * p[2*i+1]) + shift; v[2*i+1] = shift * p[2*i] + p[2*i+1] * p[2*i]; } g.loadNeededValues(v);
+      int miss = 0; for (int i = 0; i < n; i++) { double y[2]; g.evaluate(&p[2*i], y); if (!(std::abs(y[0] - v[2*i]) < 1.E-9 && std::abs(y[1] - v[2*i+1]) < 1.E-9)) miss++; }
+      if (miss) { std::printf("%s variant %d: %d of the %d values just supplied are not returned at their points\n", fam.c_str(), variant, miss, n); bad++; } };
+    auto refine = [&](){ if (g.isLocalPolynomial() || g.isWavelet()) g.setSurplusRefinement(1.E-4, refine_classic, -1); else g.setAnisotropicRefinement(type_iptotal, 3, 0, std::vector<int>()); };
+    load(0.0); check("the first load");
+    load(1.5); check("overwriting the loaded values");
+    refine(); load(0.25); check("refinement + load");
+    refine(); g.mergeRefinement(); check("refinement + mergeRefinement");
+    load(-0.75); check("overwriting after the merge");
+  }
+  __CPROVER_assert(bad == 0, "G1 every loaded point returns its stored value after each step of the load / refine / merge protocol");
+  return 0;
+}
+'''
+def replay(prop, fam):
+    def rp(job, ob, vals, wd):
+        hdr = "Replay through the public API of the real library (fixed protocol scenarios for the family).\nproperty %s job %s\nobligation %s: %s\nat %s" % (prop, job.name, ob["name"], ob["description"], ob["location"])
+        return RP.write_and_run(prop, job.name + "." + ob["name"], hdr, ['"TasmanianSparseGrid.hpp"', '<cmath>', '<string>'], REPLAY.replace("@FAM@", fam), "  main_replay();", lib="sg", timeout=120)
+    return rp
+
 def jobs(tier, seed, prop):
     out = []
     cf = ContractFile("contracts/protocol.c")
@@ -15,7 +56,7 @@ def jobs(tier, seed, prop):
                + '#line 1 "/verif/contracts/protocol.c"\n' + cf.text(("text",)) + t)
         for h in ("h_load", "h_merge"):
             out.append(Job("protocol.%s.%s" % (fam, h[2:]), pre + cf.text(("harness",), [h]), h, timeout=120,
-                           functions=["%s:%d %s" % (f["file"], f["line"], f["name"]) for f in info["functions"]], info=info,
+                           functions=["%s:%d %s" % (f["file"], f["line"], f["name"]) for f in info["functions"]], info=info, replay=replay(prop, fam),
                            assumed=["ghost model: StorageSet::setValues/addValues, MultiIndexSet move/union, buildTree / prepareSequence / recomputeTensorRefs / recomputeSurpluses / recomputeCoefficients act on identities as stated in contracts/protocol.c (addValues itself is proved in indexsets.addValues)",
                                     "the invariant is assumed at entry (established by the constructors, which are not under contract)"],
                            label="Grid%s %s path keeps values, points and derived structures aligned (G1)" % (fam, "loadNeededValues" if h == "h_load" else "mergeRefinement")))
